@@ -59,7 +59,7 @@ VERSION_SENSITIVE = {
     "vs_walrus_comp": "print([(q := e * 2) for e in range(3)], q, [e for e in range(4) if (r := e) % 2], r)\n",
     "vs_walrus_genexp_sole_argument": "data = [3, 1, 2]\nprint(sum((seen := v) for v in data), seen, max((w := v * 2) for v in data if (u := v) > 1), w, u, list((z := v) for v in data), z, sorted(((q := v), -v) for v in data), q)\n",
     "vs_walrus_everywhere": "d = {}\nl = [0, 1, 2, 3]\nf = lambda a, b=0: (a, b)\nprint((a := 1), f((b := 2)), f(1, b=(c := 3)), [(e := 4)], ((g := 5),), {'k': (h := 6)}, {(i := 7): 1}, l[(j := 1):(k := 3)], l[(m := 2)], f'{(n := 8)}', (o := 9) if (p := 1) else (r := 0), (lambda: (s := 10))(), not (t := 0), -(u := 11), (v := 12) + (w := 13), (x := 1) < (y := 2) < (z := 3))\nprint(a, b, c, e, g, h, i, j, k, m, n, o, p, t, u, v, w, x, y, z)\n",
-    "vs_lambda_star_names_shadow": "def f(kw, a):\n    def bump():\n        nonlocal kw, a\n        kw, a = kw + 1, a + 1\n    bump()\n    g = lambda *a, **kw: (a, sorted(kw))\n    return g(1, z=2), kw, a\nclass K:\n    kw = 'member'\n    a = 'member-a'\n    h = staticmethod(lambda *a, **kw: (a, sorted(kw)))\n    r = h(3, y=4)\nprint(f(1, 2), K.r, K.kw)\n",
+    "vs_lambda_star_names_shadow": "def f(kw, a):\n    def bump():\n        nonlocal kw, a\n        kw, a = kw + 1, a + 1\n    bump()\n    g = lambda *a, **kw: (a, sorted(kw))\n    return g(1, z=2), kw, a\nclass K:\n    kw = 'member'\n    a = 'member-a'\n    h = staticmethod(lambda *a, **kw: (a, sorted(kw)))\n    r = h.__func__(3, y=4)\nprint(f(1, 2), K.r, K.kw)\n",
     "vs_set_and_inplace_operators": "s = {1, 2}\nt = s\ns |= {2, 3}\nprint(sorted(s))\ns ^= {1, 4}\nprint(sorted(s))\ns &= {2, 3, 9}\nprint(sorted(s))\ns -= {9, 2}\nl = [1]\nm = l\nl += [2]\nl *= 2\nd = {'a': 1}\ne = d\nd.update(b=2)\nx = 6\nx ^= 3\nx |= 8\nx &= 13\nx <<= 2\nx >>= 1\nx **= 2\nx //= 5\nx %= 7\nx -= 1\nprint(sorted(s), t is s, l, m is l, sorted(d), e is d, x)\n",
     "vs_star_index": "d = {(0, 1): 7}\np = (0,)\nprint(d[(*p, 1)])\n",
     "vs_star_return_tuple": "def f(a):\n    return (*a, 1)\nprint(f([3]), [*range(2), *'ab'], {**{'k': 1}, 'j': 2})\n",
